@@ -39,6 +39,12 @@ import BGV
 #print axioms BGV.C04_dir_edgeNumber
 #print axioms BGV.C04_dir_total
 #print axioms BGV.C04_dir_outDegree
+#print axioms BGV.C04_und_inv_reachable
+#print axioms BGV.C04_und_refines
+#print axioms BGV.C04_und_getEdgeMultiplicity
+#print axioms BGV.C04_und_zero_iff_no_edge
+#print axioms BGV.C04_und_edgeNumber
+#print axioms BGV.C04_und_total
 
 -- C05
 #print axioms BGV.C05_dir_inv_reachable
